@@ -4,6 +4,10 @@
 //! shapes conformant streams; the property's own oracle runs on the generated case.
 use libfuzzer_sys::fuzz_target;
 
+// counting allocator: needed by the C15 oracle, harmless for the others
+#[global_allocator]
+static A: nfv::alloc::Counting = nfv::alloc::Counting;
+
 fuzz_target!(|data: &[u8]| {
     nfv::fuzzglue::run_plan(data);
 });
